@@ -23,5 +23,5 @@ echo "--- demo WITH patch:"; run_demo
 git checkout -- "$APPEND"; git apply "$D/patch.diff" 2>/dev/null
 [ "$PKG" = rustic_backend ] && { echo "--- existing tests WITH patch (rustic_backend):"; cargo test -p rustic_backend --offline 2>&1 | grep -E "^test result|FAILED|failed" | head -8; }
 echo "--- existing tests WITH patch (lib):"; cargo test -p rustic_core --offline --lib 2>&1 | grep -E "^test result|FAILED|failed" | head -8
-echo "--- existing tests WITH patch (integration):"; cargo test -p rustic_core --offline --test integration 2>&1 | grep -E "^test result|FAILED|failed" | head -8
+echo "--- existing tests WITH patch (integration):"; cargo test -p rustic_core --offline --test integration -- --test-threads=4 2>&1 | grep -E "^test result|FAILED|failed" | head -12
 cd /; git -C /repo worktree remove --force "$W"
